@@ -535,8 +535,8 @@ func checkTranspileOneForm(c *Ctx, f *FC, rule string) {
 			return true
 		})
 		masked = f.canon(masked)
-		c.R.Check(masked == f.canon(specT1), rule, "transpileOne", "closed-form", c.Pos(f.M.Fset, fn.Decl.Pos()), whyT1+": "+masked,
-			"closed form is not the specification term ("+whyT1+"); "+diffHint(masked, f.canon(specT1)))
+		c.R.Check(masked == f.canonSpec(specT1), rule, "transpileOne", "closed-form", c.Pos(f.M.Fset, fn.Decl.Pos()), whyT1+": "+masked,
+			"closed form is not the specification term ("+whyT1+"); "+diffHint(masked, f.canonSpec(specT1)))
 	} else {
 		c.R.Undecided(rule, "transpileOne", "definition", f.M.Dir, "anchor function not found (renamed or removed): "+whyT1)
 	}
